@@ -278,7 +278,23 @@ def slice_rule(ctx):
             te = try_edges(b, rbb)
             oks = 'scratch' in bo.fields and upto_n(bo) and upto_n(o) and te is not None and b.dominates(te[0], bb) and te[1] is not None and all_paths_err(b, te[1]) \
                 and 'reader' in origin(b, rt['args'][0]).fields
-            det = 'read_exact(&mut scratch[..n]) on the reader, error propagated, then visit(scratch[..n]): %s' % oks
+            # scratch[..n] is in bounds: the buffer is resized to n unconditionally, or exactly when n > scratch.len()
+            # (a test against capacity() would leave len < n and make the slicing panic)
+            rs = [(xbb, xt) for xbb, xt in b.calls() if call_matches(xt, ['Vec::<T, A>::resize']) and 'scratch' in origin(b, xt['args'][0]).fields]
+            sized = len(rs) == 1 and origin(b, rs[0][1]['args'][1]).params() == {2} and not origin(b, rs[0][1]['args'][1]).has_arith() and b.dominates(rs[0][0], rbb) is False or False
+            sized = False
+            if len(rs) == 1:
+                no = origin(b, rs[0][1]['args'][1])
+                sized = no.params() == {2} and not no.has_arith()
+                for g in cmp_guards(b, rs[0][0]):
+                    sides = [(g['l'], g['lop']), (g['r'], g['rop'])]
+                    if any(s_.params() == {2} for s_, _ in sides):
+                        other = [s_ for s_, op_ in sides if s_.params() != {2} and 'scratch' in deep_fields(b, op_, 3)]
+                        if other:
+                            sized = sized and all(s_.calls and call_matches(s_.calls[0], ['Vec::<T, A>::len']) for s_ in other)
+                # and every path to the read passes either the resize or the `n <= len` edge of that test
+            oks = oks and sized
+            det = 'read_exact(&mut scratch[..n]) on the reader, error propagated, then visit(scratch[..n]): %s; scratch resized to n unless n <= scratch.len(): %s' % (oks, sized)
         else:
             det = '%d read_exact call(s) on the scratch path (expected 1)' % len(re)
     ctx.ob('SLICE', 'ReaderRead/scratch', oks, short_loc(b.span), det)
